@@ -304,7 +304,12 @@ def cases(tier, seed):
         depth2 = en in CHEAP or tier == "thorough"
         if depth2:
             for a, b in itertools.product([t for t in tnames if not (en == "Point" and TRANSFORMS[t].get("origin", 0) is None)], repeat=2):
-                out.append({"entity": en, "seq": [a, b], "form": "method" if (tnames.index(a) + tnames.index(b)) % 2 == 0 else "list"})
+                form = "method" if (tnames.index(a) + tnames.index(b)) % 2 == 0 else "list"
+                out.append({"entity": en, "seq": [a, b], "form": form})
+                if "origin" in TRANSFORMS[b] and TRANSFORMS[b]["origin"] is None and en != "Point":
+                    # a default origin (the entity's centre AFTER the steps before it): the list form has to agree
+                    # with the chain of method calls, so both forms are run
+                    out.append({"entity": en, "seq": [a, b], "form": "list" if form == "method" else "method"})
         if tier == "thorough" and en in CHEAP:
             for a, b, c in itertools.product([t for t in tnames if not (en == "Point" and TRANSFORMS[t].get("origin", 0) is None)], repeat=3):
                 out.append({"entity": en, "seq": [a, b, c], "form": "method" if (tnames.index(a) + tnames.index(c)) % 2 == 0 else "list"})
